@@ -329,7 +329,7 @@ class Interp:
 
     def _sig(self, st, fn, blk, d, idx=None):
         """decision signature of a path: (call-site chain, function, block, direction) per undecided branch taken"""
-        chain = tuple(fr.callsite.loc() if fr.callsite is not None else '' for fr in st.frames[1:])
+        chain = tuple((fr.fn.name, fr.callsite.loc() if fr.callsite is not None else '') for fr in st.frames[1:])
         st.tags['sig'] = st.tags.get('sig', ()) + ((chain, fn.name, blk.name if idx is None else '%s#%d' % (blk.name, idx), (d, st.tags.pop('_piece', None))),)
 
     # ---- instructions ------------------------------------------------------------------------------
